@@ -6,6 +6,7 @@ CONSTANTS
   ScratchVals = {0}
   ArgCounts = {0}
   SingleCounts = {}
+  HistSites = {}
   RotStep = 1
   Emit = FALSE
   Strict = TRUE
